@@ -130,7 +130,14 @@ func decide(o *Obligation, dir string, id int, timeoutS int, confirm bool) {
 	if quick > 4 {
 		quick = 4
 	}
-	r := runSolver(context.Background(), solvers[0], file, quick)
+	var r solveResult
+	if strings.Contains(o.RawSMT, "(check-sat)") || hasRegex(o) {
+		// regular-language and free-standing string goals: cvc5 decides them in
+		// well under a second where z3 runs into its timeout - race at once
+		r = solveResult{ans: "unknown"}
+	} else {
+		r = runSolver(context.Background(), solvers[0], file, quick)
+	}
 	if r.ans == "error" {
 		o.Status, o.Solver, o.Output = "solver-error", r.solver, firstLines(r.out, 20)
 		return
@@ -252,7 +259,7 @@ func decideAll(obls []*Obligation, timeoutS int, workers int, confirm bool) (sol
 		// fast path: batches of plain validity obligations
 		var plain []*Obligation
 		for _, o := range obls {
-			if !o.WantSat && o.RawSMT == "" && o.Prelude == "" {
+			if !o.WantSat && o.RawSMT == "" && o.Prelude == "" && !hasRegex(o) {
 				plain = append(plain, o)
 			}
 		}
@@ -301,4 +308,16 @@ func decideAll(obls []*Obligation, timeoutS int, workers int, confirm bool) (sol
 		solverMs[o.Solver] += o.Ms
 	}
 	return
+}
+
+func hasRegex(o *Obligation) bool {
+	if o.Goal != nil && strings.Contains(o.Goal.String(), "str.in_re") {
+		return true
+	}
+	for _, h := range o.Hyps {
+		if strings.Contains(h.String(), "str.in_re") {
+			return true
+		}
+	}
+	return false
 }
